@@ -86,7 +86,7 @@ def systemRule (R : Registry) (rule : String × Option String) : Except Err (Str
         if !(oexp.beq [(old, 1)]) then .error .value
         else if !(exp.has old) then .error .value
         else
-          let others : UC := (exp.filter (fun p => p.1 != old)).map fun p => (p.1, -1 / p.2)
+          let others : UC := (exp.filter (fun p => p.1 != old)).map fun p => (p.1, -p.2 / exp.get old)
           .ok (old, others ++ [(new, 1 / exp.get old)])
 
 def addSystem (R : Registry) (st : State) (d : SystemDefn) : Except Err State :=
